@@ -17,6 +17,7 @@ import (
 //
 //	exit-before   non-zero exit before anything was written
 //	exit-mid      non-zero exit after half of the first output was written
+//	panic-mid     (Go-function bodies) a run-time panic after half of the first output was written
 //	exit-after    non-zero exit after all outputs were written completely
 //	killed        killed by a signal after half of the first output
 //	missing       exit 0 without producing the first declared output
@@ -73,6 +74,11 @@ func (e *Env) writeOutputs(proc, key string, outs map[string]string, ins map[str
 		half := len(data) / 2
 		if err := vs.FSWriteFile(outs[port], data[:half], 0644); err != nil {
 			return err
+		}
+		if i == 0 && fault == "panic-mid" {
+			// a run-time panic inside the task's Go function after half of the output was written
+			vs.Event("F:" + key)
+			panic("injected-panic: index out of range [1] with length 1")
 		}
 		if i == 0 && (fault == "exit-mid" || fault == "killed") {
 			vs.Event("F:" + key)
